@@ -43,6 +43,7 @@ class Script:
 
     # letters may be a list mixing one-character strings and dicts:
     #   dict(frag=k, delay=seconds, second='exact'|'plus'|'minus'|'corrupt'|'foreign'|'none')   two fragments split at byte k
+    #   dict(late=x)   the whole answer after x * timeout (x < 1: in time)
     #   dict(exc=code)                                                                    Modbus exception frame with that code
 
     def next(self):
@@ -113,7 +114,10 @@ class Peer:
             ok = F.valid_response(req, s.payload_fn)
             if 'exc' in letter:
                 self._send(F.exception_response(req, letter['exc']) if req['kind'] != 'aa55' else ok)
+            elif 'late' in letter:
+                self._later(letter['late'] * T, ok)          # the whole answer, late but before this transmission's timeout (late < 1)
             else:
+                if req['kind'] == 'tcp' and letter.get('mbap'): ok = F.apply_mbap(ok, letter['mbap'])
                 k = max(1, min(letter['frag'], len(ok) - 1))
                 first, rest = ok[:k], ok[k:]
                 kind2 = letter.get('second', 'exact')
